@@ -3,10 +3,14 @@
 package c18
 
 import (
+	"encoding/gob"
+	"encoding/json"
 	"errors"
 	"fmt"
 	"math/rand"
 	"net"
+	"os"
+	"runtime"
 	"sort"
 	"sync"
 	"time"
@@ -15,6 +19,25 @@ import (
 	"github.com/bitcoin-sv/block-headers-service/verifharness/ev"
 	"github.com/rs/zerolog"
 )
+
+func init() {
+	// violation details travel from the worker processes to the parent as gob
+	gob.Register(map[string]any{})
+	gob.Register([]any{})
+}
+
+// generic turns a detail value into plain JSON-shaped data (maps, slices, scalars).
+func generic(v any) any {
+	b, err := json.Marshal(v)
+	if err != nil {
+		return fmt.Sprint(v)
+	}
+	var out any
+	if err := json.Unmarshal(b, &out); err != nil {
+		return string(b)
+	}
+	return out
+}
 
 const (
 	cmRetry      = time.Millisecond
@@ -194,20 +217,48 @@ func (h *cmHarness) onDisconnection(*connmgr.ConnReq) {
 	h.onDisc++
 }
 
+// canary performs one round of what a request slot of the manager needs from the Go
+// scheduler to make a step: a 1 ms timer, then a chain of goroutine hand-offs over
+// unbuffered channels. It returns when the round has completed.
+func canary() {
+	done := make(chan struct{})
+	time.AfterFunc(cmRetry, func() {
+		ch := make(chan int)
+		for i := 0; i < 8; i++ {
+			go func() { ch <- 1 }()
+			<-ch
+		}
+		close(done)
+	})
+	<-done
+}
+
 // quiesce waits until no callback has fired for the idle window. false = watchdog.
+// To tell "the manager is idle" from "this process is starved of CPU", the window is
+// also measured in scheduler progress: at least 40 canary rounds (timer + goroutine
+// hand-offs, the same work a pending request needs to get to its next Dial) must have
+// completed since the last activity. On an idle host that is far less than the window.
 func (h *cmHarness) quiesce(idle time.Duration) bool {
-	deadline := time.Now().Add(60 * time.Second)
+	deadline := time.Now().Add(120 * time.Second)
+	var seen time.Time
+	rounds := 0
 	for {
 		h.mu.Lock()
-		since := time.Since(h.last)
+		last := h.last
 		h.mu.Unlock()
-		if since >= idle {
+		if last.Equal(seen) {
+			rounds++
+		} else {
+			seen, rounds = last, 0
+		}
+		if time.Since(last) >= idle && rounds >= 40 {
 			return true
 		}
 		if time.Now().After(deadline) {
 			return false
 		}
-		time.Sleep(idle/40 + time.Millisecond)
+		canary()
+		time.Sleep(time.Millisecond)
 	}
 }
 
@@ -227,6 +278,7 @@ type cmOutcome struct {
 	watchdog  bool
 	h         *cmHarness
 	replaced  int64
+	slow      int64
 	checks    int64
 	discs     int64
 	removes   int64
@@ -263,7 +315,7 @@ func cmParamsFor(rng *rand.Rand, idx int) cmParams {
 }
 
 // runCM executes one scripted connection-manager scenario against the real manager.
-func runCM(p cmParams, seed int64, idle time.Duration) (res cmOutcome) {
+func runCM(p cmParams, seed int64, idle time.Duration, extend bool) (res cmOutcome) {
 	h := &cmHarness{p: p, rng: rand.New(rand.NewSource(seed)), badLeft: map[string]int{}, banned: map[string]bool{},
 		cbOpen: map[uint64]*fakeConn{}, last: time.Now()}
 	for i := 0; i < 12; i++ {
@@ -302,6 +354,26 @@ func runCM(p cmParams, seed int64, idle time.Duration) (res cmOutcome) {
 		if !h.quiesce(idle) {
 			out.watchdog = true
 			return false
+		}
+		h.mu.Lock()
+		short := h.dialOpen != p.T || len(h.cbOpen) != p.T
+		h.mu.Unlock()
+		if short && extend {
+			// Off target after the idle window: keep observing the SAME execution for a
+			// 5x longer window before calling it "stopped" (the statement has no time bound;
+			// a scheduling stall of the host must not look like a lost request).
+			if !h.quiesce(5 * idle) {
+				out.watchdog = true
+				return false
+			}
+			h.mu.Lock()
+			if h.dialOpen == p.T && len(h.cbOpen) == p.T {
+				out.slow++
+			} else if os.Getenv("C18_DEBUG") != "" {
+				buf := make([]byte, 1<<20)
+				fmt.Fprintf(os.Stderr, "c18: below target after the extended window (open %d/%d); goroutines:\n%s\n", h.dialOpen, p.T, buf[:runtime.Stack(buf, true)])
+			}
+			h.mu.Unlock()
 		}
 		h.mu.Lock()
 		defer h.mu.Unlock()
@@ -409,34 +481,51 @@ func runCMCase(r *ev.Run, id string, idx int) {
 	p := cmParamsFor(rng, idx)
 	seed := rng.Int63()
 	idle := cmIdleFactor * cmRetry
-	out := runCM(p, seed, idle)
+	out := runCM(p, seed, idle, true)
 	h := out.h
-	detail := func(o cmOutcome) map[string]any {
+	detail := func(o cmOutcome) any {
 		o.h.mu.Lock()
 		defer o.h.mu.Unlock()
-		return map[string]any{"params": p, "harness_seed": seed, "phase": o.miss, "open_at_quiescence": o.missOpen,
+		return generic(map[string]any{"params": p, "harness_seed": fmt.Sprint(seed), "phase": o.miss, "open_at_quiescence": o.missOpen,
 			"dials": o.h.dials, "refusals": o.h.refusals, "successes": o.h.successes, "address_bans": o.h.bans,
-			"max_open": o.h.maxOpen, "callback_log": append([]string(nil), o.h.log...)}
+			"max_open": o.h.maxOpen, "callback_log": append([]string(nil), o.h.log...)})
 	}
 	if out.miss != "" && !out.watchdog {
 		// Bounded progress: a single miss is inconclusive — confirm by one re-run of the same
 		// scenario with a 5x longer idle window before reporting.
-		again := runCM(p, seed, 5*idle)
+		again := runCM(p, seed, 5*idle, false)
 		r.Count("cm_reruns_to_confirm", 1)
 		switch {
 		case again.watchdog:
 			r.Inconclusive(id, "confirmation re-run hit the watchdog")
 		case again.miss == "":
-			r.Inconclusive(id, fmt.Sprintf("target not reached once (phase %s, open %d/%d) but reached in the confirmation re-run", out.miss, out.missOpen, p.T))
+			out.h.mu.Lock()
+			tail := out.h.log
+			if len(tail) > 6 {
+				tail = tail[len(tail)-6:]
+			}
+			r.Inconclusive(id, fmt.Sprintf("target not reached once (flavour %s, phase %s, open %d/%d, dials %d, refusals %d, bans %d, last callbacks %q) but reached in the confirmation re-run",
+				p.Flavour, out.miss, out.missOpen, p.T, out.h.dials, out.h.refusals, out.h.bans, tail))
+			out.h.mu.Unlock()
 		default:
-			sig := fmt.Sprintf("connmgr|idle-below-target|phase=%s|banaddress=%s", again.miss, map[bool]string{true: "set", false: "nil"}[p.BanAddress])
+			rel := "below"
+			if again.missOpen > p.T {
+				rel = "above"
+			}
+			sig := fmt.Sprintf("connmgr|idle-%s-target|phase=%s|banaddress=%s", rel, again.miss, map[bool]string{true: "set", false: "nil"}[p.BanAddress])
 			what := fmt.Sprintf("target %d: the manager stopped dialling (idle for %d retry intervals) with %d open connections in phase %s", p.T, 5*cmIdleFactor, again.missOpen, again.miss)
+			if again.miss != "initial-fill" && again.miss != "after-disconnect" {
+				sig = "connmgr|" + again.miss
+				what = fmt.Sprintf("target %d: %s (open connections %d)", p.T, again.miss, again.missOpen)
+			}
 			again.h.mu.Lock()
 			bans := again.h.bans
 			again.h.mu.Unlock()
-			if bans > 0 && (again.miss == "initial-fill" || again.miss == "after-disconnect") {
+			// Fingerprint of the lost-slot defect: every BanAddress call costs exactly one
+			// request slot for good, so the shortfall equals the number of address bans.
+			if bans > 0 && int64(p.T-again.missOpen) == bans && (again.miss == "initial-fill" || again.miss == "after-disconnect") {
 				sig = "connmgr|slot-lost-after-address-ban|target-not-reached"
-				what += fmt.Sprintf("; BanAddress was called %d time(s) — the request slot of the banned address was never replaced although later dials would succeed", bans)
+				what += fmt.Sprintf("; BanAddress was called %d time(s) and exactly that many request slots are gone — the slot of a banned address is never replaced although later dials would succeed", bans)
 				r.Count("cm_slot_lost_after_address_ban", 1)
 			}
 			r.Violate(sig, what, id, detail(again))
@@ -469,6 +558,7 @@ func runCMCase(r *ev.Run, id string, idx int) {
 	r.Count("cm_disconnects_issued", out.discs)
 	r.Count("cm_removes_issued", out.removes)
 	r.Count("cm_replacements_observed", out.replaced)
+	r.Count("cm_target_reached_only_in_extended_window", out.slow)
 	r.Count("cm_target_checks_at_quiescence", out.checks)
 	r.Count("cm_cases_"+p.Flavour, 1)
 	r.Case(fmt.Sprintf("cm|%s|T=%d|rate=%d|banaddr=%v|honour=%v|banned=%v|rounds=%d", p.Flavour, p.T, p.RefuseRate, p.BanAddress, p.HonourBan, banned, p.Rounds),
